@@ -69,6 +69,7 @@ fn main() {
         let n: usize = arg(&args, "--n").and_then(|s| s.parse().ok()).unwrap_or(10);
         match prop.as_str() {
             "C01" => rrss_verif::props::c01::emit(&dir, seed, n),
+            "C08" => rrss_verif::props::c08::emit(&dir, seed, n),
             "C09" => rrss_verif::props::c09::emit(&dir, seed, n),
             "DICT" => rrss_verif::props::c01::emit_dict(&dir),
             "C10" => rrss_verif::props::c10::emit(&dir, seed, n),
